@@ -21,11 +21,11 @@ Proof.
   intros J E ls s css d v Hwf Hr. exact (outputs_correct J E s d v (reachable_inv J E Hwf ls s css Hr)).
 Qed.
 
-(* a host only ever stores a dataset its producer has computed; a task only runs with all its
+(* a host only ever stores a dataset its producer has published; a task only runs with all its
    inputs stored on its host (so it reads the producers' values, not stale or missing ones) *)
 Theorem C01_stored_data_was_computed : ∀ J E ls s css h d,
-  wf_job J → run J E (init J E) ls = Next (s, css) → (h, d) ∈ store s → d.1 ∈ finished s.
-Proof. intros J E ls s css h d Hwf Hr. apply (i_store_fin J E), (reachable_inv J E Hwf ls s css Hr). Qed.
+  wf_job J → run J E (init J E) ls = Next (s, css) → (h, d) ∈ store s → d ∈ published s.
+Proof. intros J E ls s css h d Hwf Hr. apply (i_store_pub J E), (reachable_inv J E Hwf ls s css Hr). Qed.
 
 (* at exit every requested dataset has been delivered with its value (in-order delivery of each
    task's publications; see C03 for the out-of-order finding) *)
